@@ -49,7 +49,7 @@ def run(ctx):
 
     # ---- ops -------------------------------------------------------------------------
     if quick:
-        grid = [(t, i, v, ts, vis) for t in (1, 2, 3) for i in IDS for v in (1, 2) for ts in (0, 5, 9) for vis in (0, 1)]
+        grid = [(t, i, v, ts, vis) for t in (1, 2, 3) for i in IDS for v in (0, 1, 2) for ts in (0, 5, 9) for vis in (0, 1)]
     else:
         grid = [(t, i, v, ts, vis) for t in (1, 2, 3, 4) for i in IDS for v in VERSIONS for ts in TSS for vis in (0, 1)]
     full = [(t, i, v, ts, vis) for t in (1, 2, 3, 4) for i in IDS for v in VERSIONS for ts in TSS for vis in (0, 1)]
@@ -127,7 +127,7 @@ def run(ctx):
                            'replay': 'echo "<op>" | <harness c16>'})
             break
     # 3b. order laws on triples
-    tgrid = [(t, i, v, ts, vis) for t in (1, 2) for i in IDS for v in (1, 2) for ts in (0, 5, 9) for vis in (0, 1)]
+    tgrid = [(t, i, v, ts, vis) for t in (1, 2) for i in IDS for v in (0, 1, 2, 2 ** 31 - 1) for ts in (0, 5, 9) for vis in (0, 1)]
     tri = []
     ntri = 60000 if quick else 2000000
     for _ in range(ntri):
